@@ -8,7 +8,7 @@ META = {
             'shape/order, match==outward[0], outward strictly nested around pos, inward nested.',
     'bounds': {
         'quick': 'HTML scan/attributes/match/balanced len<=3 (any int pos); CSS scan, match/balanced (any int pos), split_value '
-                 'len<=3; 21 half-typed documents (valid prefix + <=2 free characters); every forest document of 6 nodes '
+                 'len<=3; 25 half-typed documents (valid prefix + <=2 free characters); every forest document of 6 nodes '
                  '(HTML and CSS generators of C09/C10), whole and cut after 3/4 and 1/2 of its length, any int pos',
         'thorough': 'HTML scan len<=4, attributes len<=3, HTML matchers len<=4; CSS scan/matchers/split_value len<=4; prefixes + <=3 free characters; forest documents of 7 nodes',
     },
@@ -262,7 +262,8 @@ def mk_css_split(L, lo, hi):
 
 
 HTML_PREFIXES = ['<style></style><style>', '<script>x</script><script>', '<a b="', '<a><!--', '<a></a><b', "<a href='x'>t</a>",
-                 '<![CDATA[', '<?php ', '<a><br><b>', '<a b=c d>', '<p>x</br', '<img a></img', '<script>x</script><style>']
+                 '<![CDATA[', '<?php ', '<a><br><b>', '<a b=c d>', '<p>x</br', '<img a></img', '<script>x</script><style>',
+                 '<script type=', '<div {# ', '<b #', '<i *a [b]=']
 CSS_PREFIXES = ['a{b:c}d{e:', 'a{b:"', '@media (x:', 'a{/*', 'a{b:c;', 'a::b{c:url(', 'a{b{c:d}', 'a:b;c']
 
 
